@@ -71,6 +71,23 @@ theorem ev_frame (cfg : Cfg) (e : Env) (w : List UInt64) (l : Unit → String) :
   · exact Frame.refl e
   · split <;> exact Frame.of_same rfl rfl rfl rfl rfl rfl rfl rfl rfl rfl rfl rfl (Nat.le_refl _)
 
+/-- an event only touches the ghost digest, counter and transcript -/
+theorem ev_eq (cfg : Cfg) (e : Env) (w : List UInt64) (l : Unit → String) :
+    ∃ d n lg, e.ev cfg w l = { e with digest := d, events := n, log := lg } := by
+  unfold Env.ev
+  split
+  · exact ⟨e.digest, e.events, e.log, rfl⟩
+  · split
+    · exact ⟨_, _, _, rfl⟩
+    · exact ⟨_, _, e.log, rfl⟩
+
+theorem onNode_eq (cfg : Cfg) (e : Env) (k : Nat) (g : Game) (d : Nat) (a b : Int) :
+    ∃ dg n lg, e.onNode cfg k g d a b = { e with digest := dg, events := n, log := lg } := by
+  unfold Env.onNode
+  split
+  · exact ⟨e.digest, e.events, e.log, rfl⟩
+  · exact ev_eq ..
+
 theorem ev_stopping (cfg : Cfg) (e : Env) (w : List UInt64) (l : Unit → String) : (e.ev cfg w l).stopping = e.stopping := by
   unfold Env.ev; split; · rfl
   split <;> rfl
